@@ -1,6 +1,7 @@
 (* C17 — wire format, model runner and the trace oracle prop_ok. Definitions only. *)
 From Coq Require Import List NArith Bool.
 From V.common Require Import Wire.
+From V.gen Require Consts.
 From V.C17 Require Import Model Timed Ingress.
 Import ListNotations.
 Open Scope N_scope.
@@ -366,7 +367,8 @@ Definition p_kev : parser kev :=
   match tag with
   | 0 => let* f := pN in let* k := pN in let* v := pN in let* len := pN in let* pb := pN in let* ttl := pN in
          pret (KPutValue f k v len pb ttl)
-  | 1 => let* f := pN in let* k := pN in let* l := plist p_triple in pret (KAddProvider f k l)
+  | 1 => let* f := pN in let* k := pN in
+         let* l := plist (let* t := p_triple in let* v := pN in pret (t, v)) in pret (KAddProvider f k l)
   | 2 => let* f := pN in let* k := pN in pret (KGetValue f k)
   | 3 => let* f := pN in let* k := pN in pret (KGetProviders f k)
   | 4 => let* k := pN in let* v := pN in let* len := pN in let* e := pN in
@@ -484,6 +486,12 @@ Definition rel_le (fa da fb db : N) : bool :=
   | _, _ => da <=? db
   end.
 
+Definition sender (e : kev) : N :=
+  match e with
+  | KPutValue f _ _ _ _ _ | KAddProvider f _ _ | KGetValue f _ | KGetProviders f _ => f
+  | _ => 0
+  end.
+
 (* One event of the Kademlia stream, judged on what the implementation showed: the bounds hold in
    the dumped store; what is served was stored and fresh at that clock reading; a stored record
    with an expiry is not replaced by an earlier-expiring one; a remote event changes no local
@@ -530,6 +538,11 @@ Definition kstep_ok (kc : kcfg) (prev : kdumped) (e : kev) (ob : kobs) (next : k
   end &&
   if remote e then
     list_eqb (fun a b : N * N => (fst a =? fst b) && (snd a =? snd b)) (kd_q prev) (kd_q next) &&
+    (* a remote peer adds nobody but itself as a provider *)
+    forallb (fun kp : N * list kprov =>
+               forallb (fun p => (p_id (kp_prov p) =? sender e) ||
+                                 existsb (fun p0 => p_id (kp_prov p0) =? p_id (kp_prov p)) (kd_provs (fst kp) prev))
+                       (snd kp)) (kd_pk next) &&
     (k_auto kc ||
      forallb (fun r' => match kd_find_rec (r_key (kr_rec r')) prev with
                         | Some r => (r_val (kr_rec r) =? r_val (kr_rec r')) && (r_len (kr_rec r) =? r_len (kr_rec r'))
@@ -566,11 +579,20 @@ Definition prop_ok_kad (case trace : list N) : bool :=
   | _, _ => false
   end.
 
+(* ---- DEFAULTS_TAG: `MemoryStoreConfig::default()` as compiled, against the constants the
+   translator reads from config.rs (the ones C17_default_config is stated for) ---- *)
+Definition run_defaults : list N :=
+  [4; V.gen.Consts.DEFAULT_MAX_RECORDS; V.gen.Consts.DEFAULT_MAX_RECORD_SIZE_BYTES;
+   V.gen.Consts.DEFAULT_MAX_PROVIDER_KEYS; V.gen.Consts.DEFAULT_MAX_PROVIDER_ADDRESSES;
+   V.gen.Consts.DEFAULT_MAX_PROVIDERS_PER_KEY; V.gen.Consts.DEFAULT_PROVIDER_REFRESH_INTERVAL_SECS;
+   V.gen.Consts.DEFAULT_PROVIDER_TTL_SECS].
+
 (* ---- dispatch on the first number of the case ---- *)
 Definition run_case (l : list N) : list N :=
   match l with
   | 9001 :: rest => run_timed rest
   | 9002 :: rest => run_kad rest
+  | [9003] => run_defaults
   | _ => run_case_v1 l
   end.
 
@@ -578,6 +600,7 @@ Definition prop_ok (case trace : list N) : bool :=
   match case with
   | 9001 :: rest => prop_ok_timed rest trace
   | 9002 :: rest => prop_ok_kad rest trace
+  | [9003] => true      (* other default values are a different configuration, not a violation *)
   | _ => prop_ok_v1 case trace
   end.
 
